@@ -114,7 +114,7 @@ Section STEP2.
       - intros X. exfalso. apply X. reflexivity.
     Qed.
 
-    Lemma EvOK_plain_now r e th' : plain_op c -> th_pc th' = th_pc th -> th_issued th' <= s_now st ->
+    Lemma EvOK_plain_now r e th' : plain_op c -> th_pc th' = th_pc th -> 0 <= th_issued th' <= s_now st ->
       EvOK (ev_now th' r e :: s_trace st) (ev_now th' r e).
     Proof.
       intros Hp Hpc Hi. apply (EvOK_plain progs _ _ c); auto.
@@ -271,7 +271,7 @@ Section STEP2.
   Proof. intros H. destruct st; unfold update_now, set_now; simpl in *; subst; reflexivity. Qed.
 
   Lemma EvOK_yieldlike tr ev : 
-    (forall d, ev_op progs ev <> Some (OCore (OUsleep d))) -> ev_issued ev <= ev_time ev ->
+    (forall d, ev_op progs ev <> Some (OCore (OUsleep d))) -> 0 <= ev_issued ev <= ev_time ev ->
     (ev_op progs ev = Some (OCore OYield) \/ (exists j, ev_op progs ev = Some (OCore (OYieldTo j)) /\ ev_k ev = [1]) ->
        ev_ret ev = 0 \/ src_ok progs tr (ev_tid ev) (ev_ret ev) (ev_src ev)) ->
     EvOK tr ev.
